@@ -19,7 +19,8 @@ class AdEnergyCase(engine_g.GCase):
     nf = 0
     claim_orders = (0, 1)
     validate_s0 = __import__("fractions").Fraction(1, 512)
-    validate_order = 1  # the division by eps^2 leaves the series exact through eps^1 only
+    validate_order = 1
+    replay_steps = (__import__("fractions").Fraction(1, 8), __import__("fractions").Fraction(1, 16), __import__("fractions").Fraction(1, 32))  # the division by eps^2 leaves the series exact through eps^1 only
 
     def __init__(self, args):
         self.args = args
